@@ -12,6 +12,7 @@ import (
 	"fmt"
 	"os"
 	"sort"
+	"strconv"
 	"strings"
 	"time"
 
@@ -33,6 +34,42 @@ func toArgv(a []string) [][]byte {
 		out[i] = []byte(s)
 	}
 	return out
+}
+
+// leaves counts the scalar elements of a RESP2 value (nested arrays flattened)
+func leaves(b []byte) int {
+	n, _ := leavesRest(b)
+	return n
+}
+
+func leavesRest(b []byte) (int, []byte) {
+	i := bytes.Index(b, []byte("\r\n"))
+	if i < 0 || len(b) == 0 {
+		return 0, nil
+	}
+	head, rest := b[1:i], b[i+2:]
+	switch b[0] {
+	case '*':
+		cnt, _ := strconv.Atoi(string(head))
+		total := 0
+		for k := 0; k < cnt && rest != nil; k++ {
+			var m int
+			m, rest = leavesRest(rest)
+			total += m
+		}
+		return total, rest
+	case '$':
+		l, _ := strconv.Atoi(string(head))
+		if l < 0 {
+			return 1, rest
+		}
+		if len(rest) < l+2 {
+			return 1, nil
+		}
+		return 1, rest[l+2:]
+	default:
+		return 1, rest
+	}
 }
 
 func main() {
@@ -71,7 +108,7 @@ func main() {
 			g.WaitSafe()
 			_, argv, _ := g.Next()
 			name := strings.ToLower(argv[0])
-			if skip[name] {
+			if skip[name] && name != "hrandfield" && name != "srandmember" {
 				continue
 			}
 			trace = append(trace, fmt.Sprintf("%q", argv))
@@ -93,6 +130,16 @@ func main() {
 			if pd != "" || !ok {
 				fail(seq, trace, fmt.Sprintf("cannot down-convert the RESP3 reply %q (%s)", r3, pd))
 				break
+			}
+			if name == "hrandfield" || name == "srandmember" {
+				// which elements are drawn is random; how many are returned is not (the two stores hold the
+				// same data): the RESP2 reply carries as many elements as the down-converted RESP3 reply
+				stats["random_replies_compared_by_size"]++
+				if n2, nd := leaves(r2), leaves(d); n2 != nd || r2[0] != d[0] {
+					fail(seq, trace, fmt.Sprintf("%q: the RESP2 reply carries %d elements %.200q, the RESP3 reply %d %.200q", argv, n2, r2, nd, r3))
+					break
+				}
+				continue
 			}
 			same := bytes.Equal(d, r2)
 			if !same && (name == "pexpiretime" || name == "expiretime") {
